@@ -614,6 +614,14 @@ def execute(scn, serial, preempts, gran):
     raise ValueError(kind)
 
 
+def warm(scn, gran):
+    """CPython instruments a code object for opcode events the first time a traced frame asks for
+    them, and the first execution sees fewer events than later ones: run the default schedule a few
+    times (results discarded) so that yield indices are stable and schedules replay exactly."""
+    for i in range(3):
+        execute(scn, 1000000 + i, {}, gran)
+
+
 def explore(job):
     scn = job["scenario"]
     rng = random.Random(job["seed"])
@@ -638,6 +646,7 @@ def explore(job):
         t_phase = time.time()
         gran, bound, cap = phase["gran"], phase["bound"], phase["cap"]
         stats["max_yield_points"] = 0
+        warm(scn, gran)
         level = [((), 0, -1)]           # (preempts tuple, cost, last index)
         seen = set()
         spent = 0
@@ -703,6 +712,7 @@ def main():
             if job["cmd"] == "explore":
                 res = explore(job)
             else:
+                warm(job["scenario"], job["gran"])
                 s, outcome = execute(job["scenario"], 1, {int(k): v for k, v in job["preempts"]}, job["gran"])
                 res = {"outcome": outcome, "schedule": rle(s.trace), "yield_points": s.k}
             print(json.dumps(res)); sys.stdout.flush()
@@ -1034,16 +1044,16 @@ def phases(kind: str, thorough: bool) -> List[Dict[str, Any]]:
     """cap = schedules per exploration depth; a phase runs at most cap * (bound + 1) schedules"""
     pb = 3 if thorough else 2
     if kind == "reg":
-        return [{"gran": "op", "bound": pb, "cap": 400 if thorough else 100, "random": 0},
-                {"gran": "line", "bound": pb, "cap": 1000 if thorough else 120, "random": 50 if thorough else 10},
-                {"gran": "opcode", "bound": pb, "cap": 2500 if thorough else 200, "random": 300 if thorough else 30}]
+        return [{"gran": "op", "bound": pb, "cap": 300 if thorough else 100, "random": 0},
+                {"gran": "line", "bound": pb, "cap": 600 if thorough else 120, "random": 50 if thorough else 10},
+                {"gran": "opcode", "bound": pb, "cap": 1500 if thorough else 200, "random": 300 if thorough else 30}]
     if kind == "ctx":
-        return [{"gran": "op", "bound": pb, "cap": 1000 if thorough else 150, "random": 0},
-                {"gran": "line", "bound": pb, "cap": 1200 if thorough else 120, "random": 100 if thorough else 20},
-                {"gran": "opcode", "bound": pb, "cap": 1200 if thorough else 120, "random": 300 if thorough else 20}]
-    return [{"gran": "op", "bound": pb, "cap": 500 if thorough else 80, "random": 0},
-            {"gran": "line", "bound": pb, "cap": 1200 if thorough else 100, "random": 100 if thorough else 20},
-            {"gran": "opcode", "bound": pb, "cap": 1500 if thorough else 100, "random": 200 if thorough else 20}]
+        return [{"gran": "op", "bound": pb, "cap": 600 if thorough else 120, "random": 0},
+                {"gran": "line", "bound": pb, "cap": 700 if thorough else 100, "random": 100 if thorough else 20},
+                {"gran": "opcode", "bound": pb, "cap": 700 if thorough else 100, "random": 300 if thorough else 20}]
+    return [{"gran": "op", "bound": pb, "cap": 300 if thorough else 60, "random": 0},
+            {"gran": "line", "bound": pb, "cap": 600 if thorough else 70, "random": 100 if thorough else 20},
+            {"gran": "opcode", "bound": pb, "cap": 700 if thorough else 70, "random": 200 if thorough else 20}]
 
 
 def classify(payload: Dict[str, Any]) -> Optional[str]:
@@ -1127,6 +1137,8 @@ def replay(ctx: Ctx, payload: Dict[str, Any]) -> int:
     print("scenario :", payload.get("scenario_name"), json.dumps(scn))
     print("schedule : granularity", payload["gran"], "preemptions", payload["preempts"])
     print("           threads per yield point (run-length):", res["schedule"])
+    if payload.get("schedule_threads_per_yield_point_rle") not in (None, res["schedule"]):
+        print("           (differs from the recorded run:", payload["schedule_threads_per_yield_point_rle"], ")")
     print("impl     :", json.dumps(res["outcome"]))
     print("model    :", ml)
     js = judge(scn, res["outcome"], ml)
